@@ -2256,9 +2256,15 @@ impl<'a> Socket<'a> {
         }
 
         // start/stop the Zero Window Probe timer.
+        // A probe carries the first octet that has not been transmitted yet. When everything
+        // queued has been transmitted already (part of it beyond the window the peer has just
+        // closed) there is none, and an empty probe draws no reply: the retransmission timer
+        // stays in charge, and when it fires at a closed window the rewound queue is probed
+        // from its start.
         if self.remote_win_len == 0
             && !self.tx_buffer.is_empty()
             && (self.timer.is_idle() || ack_len > 0)
+            && self.remote_last_seq < self.local_seq_no + self.tx_buffer.len()
         {
             let delay = self.rtte.retransmission_timeout();
             tcp_trace!("starting zero-window-probe timer for t+{}", delay);
